@@ -184,7 +184,7 @@ Proof.
   assert (R4 : forall k n, 0 <= k -> 0 <= n -> k + n <= zlen (sp_desc m ++ post) ->
      rd_bytes z (zlen pre + 30 + zlen (m_name m) + zlen (sp_lextra m) + zlen (m_data m) + k) n = Ok (zslice k (k + n) (sp_desc m ++ post))).
   { intros k n Hk Hn' Hkn. rewrite <- (sp_lfh_len m). now apply loc_r4. }
-  unfold sp_desc, has_desc in *. destruct (m_desc m) eqn:Ek; cbn [desc_ok] in *.
+  unfold sp_desc, has_desc in *. unfold sp_csize in *. destruct (m_desc m) eqn:Ek; cbn [desc_ok] in *.
   - (* no descriptor *)
     rewrite Hfl. change (dd_absent 0) with true. cbv iota. cbn [bind fst snd].
     exists p3. split.
@@ -214,8 +214,8 @@ Proof.
     unfold dd_is_64, u32. rewrite (Z.mod_small (m_usize m)), (Z.mod_small (zlen (m_data m))) by lia.
     replace (m_usize m >=? 4294967295) with false by lia. rewrite !Z.eqb_refl. cbn [negb orb]. cbv iota.
     eexists. split.
-    + f_equal. f_equal. unfold total_size_expr. rewrite ?to_i64_small by lia.
-      rewrite zlen_enc_struct by (try reflexivity; wsok). cbn [sumz]. f_equal; lia.
+    + cbn [bind fst snd]. rewrite ?zlen_enc_struct by (try reflexivity; wsok). cbn [sumz].
+      unfold total_size_expr. rewrite ?to_i64_small by lia. f_equal. f_equal. f_equal; lia.
     + rewrite zlen_enc_struct by (try reflexivity; wsok). cbn [sumz]. change dataDescriptorLen with 16.
       destruct md; cbn [adv]; lia.
   - destruct Hd.
@@ -231,7 +231,7 @@ Proof.
     assert (Ra : rd_bytes z (zlen pre + 30 + zlen (m_name m) + zlen (sp_lextra m) + zlen (m_data m) + 0) dataDescriptorLen
                 = Ok (ztake 16 D)).
     { rewrite R4 by (rewrite ?zlen_app, ?HD; change dataDescriptorLen with 16; pose proof (zlen_nonneg post); lia).
-      f_equal. rewrite zslice_0. change dataDescriptorLen with 16. apply ztake_app_l. lia. }
+      f_equal; try reflexivity. }
     rewrite (rd_at_ok md _ p3 _ _ _ Ra) by lia. cbn [bind fst snd].
     unfold D at 1 2 3. rewrite d24_first16.
     change dd_off_Signature with (off_of 0 [4;4;4;4]). change dd_w_Signature with (nth 0 [4;4;4;4] 0).
@@ -242,29 +242,32 @@ Proof.
     change (256 ^ 4) with 4294967296. rewrite ?Hus, ?Hcs.
     assert (His : dd_is_64 (m_usize m) (zlen (m_data m)) (zlen (m_data m) / 4294967296 mod 4294967296) (zlen (m_data m) mod 4294967296) = true).
     { unfold dd_is_64, u32. unfold dd24_ok in Hok. rewrite Z.eqb_refl. cbn [negb]. rewrite orb_false_r.
-      rewrite Z.eqb_sym. exact Hok. }
+      exact Hok. }
     rewrite His. cbv iota.
     replace (zlen pre + 30 + zlen (m_name m) + zlen (sp_lextra m) + zlen (m_data m) + 0 + dataDescriptorLen)
       with (zlen pre + 30 + zlen (m_name m) + zlen (sp_lextra m) + zlen (m_data m) + 16) by (change dataDescriptorLen with 16; lia).
     assert (Rb : rd_bytes z (zlen pre + 30 + zlen (m_name m) + zlen (sp_lextra m) + zlen (m_data m) + 16)
                    (dataDescriptor64Len - dataDescriptorLen) = Ok (zdrop 16 D)).
     { rewrite R4 by (rewrite ?zlen_app, ?HD; change (dataDescriptor64Len - dataDescriptorLen) with 8; pose proof (zlen_nonneg post); lia).
-      f_equal. change (dataDescriptor64Len - dataDescriptorLen) with 8. unfold zslice.
-      rewrite zdrop_app_l by lia. rewrite ztake_app_l by (rewrite zlen_zdrop; lia). apply ztake_all. rewrite zlen_zdrop; lia. }
+      f_equal; try reflexivity. }
     rewrite (rd_at_ok md _ _ _ _ _ Rb) by (destruct md; cbn [adv]; change dataDescriptorLen with 16; lia).
     cbn [bind fst snd].
-    rewrite <- d24_first16. fold D. rewrite ztake_zdrop.
-    unfold D at 1 2 3. unfold desc_enc.
-    change dd64_off_UncompressedSize with (off_of 3 [4;4;8;8]). change dd64_w_UncompressedSize with (nth 3 [4;4;8;8] 0).
-    change dd64_off_CompressedSize with (off_of 2 [4;4;8;8]). change dd64_w_CompressedSize with (nth 2 [4;4;8;8] 0).
-    change dd64_off_CRC32 with (off_of 1 [4;4;8;8]). change dd64_w_CRC32 with (nth 1 [4;4;8;8] 0).
-    rewrite !fld0 by (try reflexivity; try wsok; cbn; lia). cbn [nth].
-    change (256 ^ 8) with (2 ^ 64). change (256 ^ 4) with 4294967296.
-    rewrite (Z.mod_small (m_usize m)), (Z.mod_small (zlen (m_data m))), (Z.mod_small (m_crc m)) by lia.
+    rewrite !ztake_zdrop.
+    assert (F : fld dd64_off_UncompressedSize dd64_w_UncompressedSize D = m_usize m /\
+                fld dd64_off_CompressedSize dd64_w_CompressedSize D = zlen (m_data m) /\
+                fld dd64_off_CRC32 dd64_w_CRC32 D = m_crc m).
+    { unfold D, desc_enc.
+      change dd64_off_UncompressedSize with (off_of 3 [4;4;8;8]). change dd64_w_UncompressedSize with (nth 3 [4;4;8;8] 0).
+      change dd64_off_CompressedSize with (off_of 2 [4;4;8;8]). change dd64_w_CompressedSize with (nth 2 [4;4;8;8] 0).
+      change dd64_off_CRC32 with (off_of 1 [4;4;8;8]). change dd64_w_CRC32 with (nth 1 [4;4;8;8] 0).
+      rewrite !fld0 by (try reflexivity; try wsok; cbn; lia). cbn [nth].
+      change (256 ^ 8) with (2 ^ 64). change (256 ^ 4) with 4294967296.
+      rewrite (Z.mod_small (m_usize m)), (Z.mod_small (zlen (m_data m))), (Z.mod_small (m_crc m)) by lia. auto. }
+    destruct F as (F1 & F2 & F3). rewrite F1, F2, F3.
     unfold dd_64_invalid. rewrite !Z.eqb_refl. cbn [negb orb]. cbv iota.
     eexists. split.
-    + f_equal. f_equal. unfold total_size_expr. rewrite ?to_i64_small by lia.
-      fold (desc_enc D24 (m_crc m) (zlen (m_data m)) (m_usize m)). fold D. rewrite HD. f_equal; lia.
+    + cbn [bind fst snd]. rewrite ?HD.
+      unfold total_size_expr. rewrite ?to_i64_small by lia. f_equal. f_equal. f_equal; lia.
     + rewrite HD. change (dataDescriptor64Len - dataDescriptorLen) with 8. destruct md; cbn [adv]; lia.
   - destruct Hd.
 Qed.
